@@ -38,6 +38,10 @@ def shards(tier):
     return 2 if tier == "quick" else 8
 
 
+# generous per-shard caps: expiry means INCONCLUSIVE, never a verdict (the box is shared and can be 10x slow)
+TIMEOUT = {"quick": 900, "thorough": 3000}
+
+
 # ---- independent wire helpers ---------------------------------------------------
 def s(b):
     if isinstance(b, str):
@@ -86,20 +90,20 @@ def name_class(name):
 # ---- key blobs (struct-built) -----------------------------------------------------
 def key_pool(rng):
     from cryptography.hazmat.primitives import serialization
-    from cryptography.hazmat.primitives.asymmetric import ec, ed25519, rsa
+    from cryptography.hazmat.primitives.asymmetric import ec, ed25519
 
     pool = []  # (kind, listed blob, set of acceptable request blobs)
     for bits in (1024, 2048):
-        n = rsa.generate_private_key(65537, bits).public_key().public_numbers()
-        blob = s("ssh-rsa") + mpint(n.e) + mpint(n.n)
+        n = rng.getrandbits(bits) | (1 << (bits - 1)) | 1  # any odd modulus makes a well-formed public blob
+        blob = s("ssh-rsa") + mpint(65537) + mpint(n)
         pool.append(("ssh-rsa %d" % bits, blob, {blob}))
     for _ in range(2):
-        raw = ed25519.Ed25519PrivateKey.generate().public_key().public_bytes(
+        raw = ed25519.Ed25519PrivateKey.from_private_bytes(rng.randbytes(32)).public_key().public_bytes(
             serialization.Encoding.Raw, serialization.PublicFormat.Raw)
         blob = s("ssh-ed25519") + s(raw)
         pool.append(("ssh-ed25519", blob, {blob}))
     for curve, nm in ((ec.SECP256R1(), "nistp256"), (ec.SECP384R1(), "nistp384"), (ec.SECP521R1(), "nistp521")):
-        pt = ec.generate_private_key(curve).public_key().public_bytes(
+        pt = ec.derive_private_key(rng.getrandbits(200) + 2, curve).public_key().public_bytes(
             serialization.Encoding.X962, serialization.PublicFormat.UncompressedPoint)
         blob = s("ecdsa-sha2-" + nm) + s(nm) + s(pt)
         pool.append(("ecdsa-sha2-" + nm, blob, {blob}))
@@ -269,7 +273,7 @@ def one_sign(ctx, rng, conn, key, entry, name, data, rtype, sig, frag, use_kw):
 
 def rdata(rng):
     n = rng.choice([0, 1, 20, 32, 64, rng.randint(0, 300), rng.randint(0, 5000)])
-    return bytes(rng.getrandbits(8) for _ in range(n)) if n < 400 else os.urandom(n)
+    return rng.randbytes(n)
 
 
 # ---- real authentications with agent-held keys -------------------------------------
@@ -313,7 +317,9 @@ def session_sample(ctx, rng):
         pair.server.allowed_keys = [priv]
         ctx.case(("session", label), sample=dict(kind="real publickey auth with an agent key", plan=label))
         try:
-            if not pair.start(timeout=60):
+            for t in (pair.tc, pair.ts):  # library-internal clocks: generous, the box may be 10x slow
+                t.banner_timeout = t.handshake_timeout = t.auth_timeout = 600
+            if not pair.start(timeout=600):
                 ctx.inconclusive("session sample: handshake failed (%r / %r)" % (pair.client_exc, pair.server_exc))
                 continue
             pair.tc.auth_publickey("u", akey)
@@ -393,7 +399,7 @@ def run(ctx):
         data = rdata(rng)
         ctx.case(("reply", rtype, ki, name, data))
         ctx.count("reply_types_enumerated")
-        one_sign(ctx, rng, conn, keys[ki], pool[ki], name, data, rtype, os.urandom(rng.randint(0, 300)),
+        one_sign(ctx, rng, conn, keys[ki], pool[ki], name, data, rtype, rng.randbytes(rng.randint(0, 300)),
                  rng.choice(["all", "byte", "random"]), use_kw=rng.random() < 0.5)
     for i in range(ctx.pick(15000, 60000)):
         if i % 2000 == 1999:  # fresh connection now and then
